@@ -5,7 +5,7 @@
     [qk] are the defect switches: [as_found] is pint as it stands (F18: '{:n}' rejects Fraction
     exponents; F4: siunitx strips any prefix name), [repaired] has both switched off. *)
 From PintV Require Import Model.UC Model.Eval Model.Registry Model.Format Model.FormatRun
-  Proofs.UCProofs Proofs.FormatProofs Gen.DefaultDefs Gen.DefaultReg.
+  Proofs.UCProofs Proofs.FormatProofs Proofs.FormatFullProofs Gen.DefaultDefs Gen.DefaultReg.
 Open Scope string_scope.
 
 (** ** faithfulness at the layout level: names, exponents, numerator / denominator position *)
@@ -35,14 +35,76 @@ Proof. exact parse_params_builtin. Qed.
     printer emits — names, [**], numbers, [*], [/] — goes through the tree builder
     ([Eval.build], the mirror of [_build_eval_tree]) and the ParserHelper algebra back to exactly
     the container, with scale 1.
-    Full statement of the design also covers decimal exponents of at most 6 significant digits;
-    that part is checked by K (KBack cases) and the real round trip only. *)
+    (Integer exponents only; kept for reference — the full statement is
+    [C09_plain_roundtrip_tokens] below.) *)
 Theorem C09_plain_roundtrip_tokens_partial qk r sf (its : items) l :
   items_wf its → its ≠ [] →
   Forall (λ nx : string * expo, ∃ z, nx.2 = XInt z) its →
   layout qk r true false false sf its = Ok l →
   ph_from_tokens (layout_tokens qk l ++ [TEnd]) = Ok (PH 1 (uc_of its), false).
 Proof. exact (plain_roundtrip_tokens qk r sf its l). Qed.
+(** FULL statement: every unit container whose exponents are rendered exactly — "the number the
+    format prints for |x| is read back by the parser as |x|", the boolean [exact_renderedb] of the
+    model, which K compares with Python on every generated exponent — for long names or any display
+    function with pairwise distinct display strings ('~'): the emitted tokens go through
+    [Eval.build] and the ParserHelper algebra back to exactly the container.  When a non-integer
+    exponent occurs pint holds the scale as a float ([fl = true]; the Eval model does not track its
+    value, the expressions contain no number but 1 and exponents); otherwise the scale is exactly 1. *)
+Theorem C09_plain_roundtrip_tokens qk r short sf (its : items) (disp : string → string) l :
+  items_wf its → its ≠ [] →
+  Forall (λ nx : string * expo, exact_renderedb qk nx.2 = true) its →
+  (∀ nx, nx ∈ its → display r short nx.1 = Ok (disp nx.1)) →
+  NoDup (map (λ nx : string * expo, disp nx.1) its) →
+  layout qk r true false short sf its = Ok l →
+  ∃ s fl, ph_from_tokens (layout_tokens qk l ++ [TEnd])
+          = Ok (PH s (uc_of (map (λ nx : string * expo, (disp nx.1, nx.2)) its)), fl)
+          ∧ (fl = false → s = 1%Qc).
+Proof. exact (plain_roundtrip_tokens_full qk r short sf its disp l). Qed.
+(** which exponents are rendered exactly: integers always … *)
+Theorem C09_int_rendered_exactly qk z : exact_renderedb qk (XInt z) = true.
+Proof. exact (exact_rendered_int qk z). Qed.
+(** … and every Decimal (any coefficient, any exponent: fixed or scientific notation, trailing
+    zeros), so in particular all decimal exponents of up to six significant digits.
+    For float exponents exactness is the decidable [exact_renderedb] itself ('{:n}' = %g with six
+    digits: exact iff the float is a decimal of at most six significant digits); a universal
+    characterisation of that set is not proved — K checks the predicate against Python on every
+    float exponent it generates. *)
+Theorem C09_decimal_rendered_exactly qk m e : exact_renderedb qk (XDec m e) = true.
+Proof. exact (exact_rendered_dec qk m e). Qed.
+(** name resolution included: [parse_units(format(u))] at token level gives back the unit *)
+Theorem C09_long_roundtrip qk r sf (its : items) l :
+  items_wf its → its ≠ [] →
+  Forall (λ nx : string * expo, exact_renderedb qk nx.2 = true) its →
+  (∀ nx, nx ∈ its → get_name r nx.1 = Ok nx.1 ∧ nx.1 ≠ ""
+                    ∧ (∀ df, r_units r !! nx.1 = Some df → u_multiplicative df = true)) →
+  layout qk r true false false sf its = Ok l →
+  parse_units_tokens r (layout_tokens qk l ++ [TEnd]) = Ok (uc_of its).
+Proof. exact (long_roundtrip_full qk r sf its l). Qed.
+Theorem C09_short_roundtrip qk r sf (its : items) l :
+  items_wf its → its ≠ [] →
+  Forall (λ nx : string * expo, exact_renderedb qk nx.2 = true) its →
+  short_guard r its →
+  layout qk r true false true sf its = Ok l →
+  parse_units_tokens r (layout_tokens qk l ++ [TEnd]) = Ok (uc_of its).
+Proof. exact (short_roundtrip_full qk r sf its l). Qed.
+(** non-vacuity: float, Decimal and int exponents of both signs, rendered exactly, printed, parsed back;
+    and a float that is not rendered exactly (1/3 ↦ 0.333333) is outside the hypothesis *)
+Example C09_roundtrip_nonint_example :
+  let its := [("meter", XFloat (mkq 1 2)); ("second", XDec (-250) (-2)); ("gram", XInt 2); ("kelvin", XFloat (mkq (-1) 8))] in
+  items_wf its
+  ∧ forallb (λ nx : string * expo, exact_renderedb repaired nx.2) its = true
+  ∧ full_format_unit repaired empty_reg (FCfg "" None SortUnitName) "" its
+    = Ok "gram ** 2 * meter ** 0.5 / kelvin ** 0.125 / second ** 2.50"
+  ∧ match layout repaired empty_reg true false false SortUnitName its with
+    | Ok l => match ph_from_tokens (layout_tokens repaired l ++ [TEnd]) with
+              | Ok (p, fl) => uc_eqb (ph_d p) (uc_of its) && fl
+              | Err _ => false end
+    | Err _ => false end = true
+  ∧ exact_renderedb repaired (XFloat (mkq 1 3)) = false.
+Proof.
+  split; [split; [apply (bool_decide_unpack _); vm_compute; exact I | repeat constructor; vm_compute; discriminate]|].
+  repeat split; vm_compute; reflexivity.
+Qed.
 (** the same for any display function with pairwise distinct display strings ('~': the symbols):
     the tokens evaluate to the container over the display strings *)
 Theorem C09_plain_roundtrip_tokens_display qk r short sf (its : items) (disp : string → string) l :
